@@ -35,8 +35,8 @@ mut("m02_selected_vars_zip", "C02", "symbolic.py",
     "an unconstrained selected variable followed by another one only takes its first value when nothing is bound yet")
 # ---- C04
 mut("m04_an_no_reset_on_abandon", "C04", "symbolic.py",
-    "        finally:\n            # also when the consumer stops early or user code raised, otherwise the next evaluation starts from\n            # the duplicate tracking state of the abandoned one.\n            self._reset_cache_()",
-    "            self._reset_cache_()\n        finally:\n            pass", "An.evaluate resets its state only after normal completion")
+    "                yield result\n        finally:\n            # also when the consumer stops early or user code raised, otherwise the next evaluation starts from\n            # the duplicate tracking state of the abandoned one.\n            self._reset_cache_()",
+    "                yield result\n            self._reset_cache_()\n        finally:\n            pass", "An.evaluate resets its state only after normal completion (and, since 9e07117, when the next evaluation starts)")
 mut("m04_coverage_on_entry", "C04", "cache_data.py",
     "            # Only an empty constraint covers the empty assignment; coverage is recorded by `add` once it is known.\n            return False",
     "            self.all_seen = True\n            self.seen.append(assignment)\n            return False",
@@ -64,13 +64,13 @@ mut("m07_domain_materialised", "C07", "hashed_data.py",
     "            self.iterable = (HashedValue(v) if not isinstance(v, HashedValue) else v for v in list(iterable))\n\n    def get",
     "set_iterable materialises the supplied iterable with list() (the whole one-shot domain is pulled at declaration... lazily at first use)")
 mut("m07_type_filter_eager", "C07", "predicate.py",
-    "            domain.domain = filter(lambda v: isinstance(v, symbolic_cls), domain.domain)",
-    "            domain.domain = [v for v in domain.domain if isinstance(v, symbolic_cls)]",
+    "        domain = From(filter(lambda v: isinstance(v, symbolic_cls), domain.domain))",
+    "        domain = From([v for v in domain.domain if isinstance(v, symbolic_cls)])",
     "the type filter over a supplied domain became a list comprehension: the iterator is drained when the variable is declared")
 # ---- C08
 mut("m08_mode_restored_to_none", "C08", "symbolic.py",
-    "            query.__exit__()\n        _set_symbolic_mode(prev_mode)",
-    "            query.__exit__()\n        _set_symbolic_mode(None if mode == EQLMode.Rule else prev_mode)",
+    "            SymbolicExpression._symbolic_expression_stack_ = prev_stack\n        _set_symbolic_mode(prev_mode)",
+    "            SymbolicExpression._symbolic_expression_stack_ = prev_stack\n        _set_symbolic_mode(None if mode == EQLMode.Rule else prev_mode)",
     "leaving a rule_mode block resets the mode to None instead of the enclosing block's mode")
 mut("m08_guard_removed_from_le", "C08", "symbolic.py",
     "        self._if_not_in_symbolic_mode_raise_error_('__le__')\n", "", "the symbolic-mode guard of <= was removed")
@@ -81,12 +81,12 @@ mut("m09_an_evaluates_in_ambient_mode", "C09", "symbolic.py",
     "An.evaluate keeps rule mode on while computing results when called inside a rule_mode block")
 # ---- C10
 mut("m10_forall_checks_first_two_values", "C10", "symbolic.py",
-    "                candidates = [c for c in candidates if self._holds_({**universal_context, **c})]\n",
-    "                candidates = [c for c in candidates if checked >= 2 or self._holds_({**universal_context, **c})]\n            checked = locals().get('checked', 0) + 1\n",
+    "                    candidates = [c for c in candidates if self._holds_({**universal_context, **c})]\n",
+    "                    candidates = [c for c in candidates if checked >= 2 or self._holds_({**universal_context, **c})]\n                checked = locals().get('checked', 0) + 1\n",
     "for_all only checks the first three universal values")
 mut("m10_forall_no_reset_between_values", "C10", "symbolic.py",
-    "        self.condition._reset_cache_()\n        for _ in self.condition._evaluate__(context):",
-    "        for _ in self.condition._evaluate__(context):",
+    "        self.condition._reset_cache_()\n        self.condition._eval_parent_ = self\n        for _ in self.condition._evaluate__(context):",
+    "        self.condition._eval_parent_ = self\n        for _ in self.condition._evaluate__(context):",
     "for_all re-evaluates its condition without resetting the duplicate tracking: a same-variable disjunction is suppressed on the 2nd value")
 # ---- C11
 mut("m11_args_independent", "C11", "symbolic.py",
@@ -103,8 +103,8 @@ mut("m12_refinement_not_relinked_on_left", "C12", "rule.py",
     "        if parent.right is old_operand:", "refinement declared after an alternative is not linked in (only right-side operands are replaced)")
 # ---- C13
 mut("m13_exact_type_filter", "C13", "predicate.py",
-    "            domain.domain = filter(lambda v: isinstance(v, symbolic_cls), domain.domain)",
-    "            domain.domain = filter(lambda v: type(v) is symbolic_cls or type(v).__mro__[1] is symbolic_cls, domain.domain)",
+    "        domain = From(filter(lambda v: isinstance(v, symbolic_cls), domain.domain))",
+    "        domain = From(filter(lambda v: type(v) is symbolic_cls or type(v).__mro__[1] is symbolic_cls, domain.domain))",
     "the type filter accepts the class and its direct subclasses only (grandchildren are dropped)")
 mut("m13_only_first_two_properties", "C13", "symbolic.py",
     "        conditions = [getattr(var, k) == v for k, v in properties.items()]",
@@ -130,8 +130,8 @@ mut("m16_flatten_inherits_parent_id", "C16", "symbolic.py",
     "flattened elements carry the hash id of their parent collection")
 # ---- C17
 mut("m17_concatenate_appends", "C17", "symbolic.py",
-    "                    all_values[self._id_].extend(child_v_unwrapped)",
-    "                    all_values[self._id_].extend(x for x in child_v_unwrapped if x not in all_values[self._id_])",
+    "                        all_values[self._id_].extend(child_v_unwrapped)",
+    "                        all_values[self._id_].extend(x for x in child_v_unwrapped if x not in all_values[self._id_])",
     "concatenate drops elements that are already in the combined list")
 # ---- C18
 mut("m18_or_always_union", "C18", "symbolic.py",
